@@ -111,11 +111,12 @@ func safePath(e *yang.Entry) (s string) {
 }
 
 type methodPlan struct {
-	typ  string
-	name string
-	idx  int
-	in   []reflect.Type // parameters after the receiver (the variadic tail dropped)
-	skip string         // why it is not called
+	typ    string
+	name   string
+	idx    int
+	in     []reflect.Type // parameters after the receiver (the variadic tail dropped)
+	skip   string         // why it is not called
+	writes bool           // takes an io.Writer: its cost grows with what is below the receiver
 }
 
 func (p *methodPlan) label() string { return p.typ + "." + p.name }
@@ -203,6 +204,9 @@ func (rb *readback) plansOf(t reflect.Type) []*methodPlan {
 			}
 			for k := 1; k < n; k++ {
 				p.in = append(p.in, mt.In(k))
+				if mt.In(k).Kind() == reflect.Interface {
+					p.writes = true
+				}
 			}
 			if why, no := deniedMethods[p.label()]; no {
 				p.skip = "denied: " + why
@@ -245,7 +249,9 @@ func synthesisable(pt, recv reflect.Type) bool {
 //
 //	rootNotModule: (*Entry).Modules asserts that the Node of the root entry is a *Module; the entry of
 //	a grouping (ToEntry of a grouping node, Entry.Uses[i].Grouping) and everything below it has a
-//	*Grouping there: Modules() and InstantiatingModule() panic with an interface conversion.
+//	*Grouping there, the entries under Entry.Deviations a *Deviation, pending augments an *Augment:
+//	Modules() and InstantiatingModule() panic with an interface conversion, and so does Find with
+//	an absolute path whose first step carries a prefix (`m != e.Node.(*Module)`).
 var guardRootNotModule = true
 
 // rootIsModule reports whether the root entry above e was made from a module node.
@@ -258,14 +264,24 @@ func rootIsModule(e *yang.Entry) bool {
 	return ok
 }
 
+// absolutePrefixed: a path that begins with "/" and whose first step has a prefix.
+func absolutePrefixed(p string) bool {
+	if !strings.HasPrefix(p, "/") {
+		return false
+	}
+	first := strings.SplitN(p[1:], "/", 2)[0]
+	return strings.Contains(first, ":")
+}
+
 // callCtx is what the arguments of the calls on one receiver are made from.
 type callCtx struct {
-	entry   *yang.Entry
-	find    []string // Find(path)
-	names   []string // any other string parameter
-	ints    []int64
-	same    []reflect.Value // parameters of the receiver's own type (the receiver itself is added)
-	noWrite bool
+	entry     *yang.Entry
+	find      []string // Find(path)
+	names     []string // any other string parameter
+	ints      []int64
+	same      []reflect.Value // parameters of the receiver's own type (the receiver itself is added)
+	noWrite   bool            // methods that write are left out
+	onlyWrite bool            // only the methods that write are called
 }
 
 var strangerNames = []string{"", "x", "nosuch", "a:b", "][", "\x00"}
@@ -287,6 +303,9 @@ func (rb *readback) callAll(recv reflect.Value, ctx *callCtx) {
 			continue
 		}
 		if noMods && (p.name == "Modules" || p.name == "InstantiatingModule") {
+			continue
+		}
+		if ctx.onlyWrite && !p.writes {
 			continue
 		}
 		m := recv.Method(p.idx)
@@ -317,6 +336,14 @@ func (rb *readback) callAll(recv reflect.Value, ctx *callCtx) {
 			case pt.Kind() == reflect.String:
 				if p.name == "Find" && t == entryType {
 					strs = ctx.find
+					if noMods {
+						strs = nil
+						for _, f := range ctx.find {
+							if !absolutePrefixed(f) {
+								strs = append(strs, f)
+							}
+						}
+					}
 				} else if len(p.in) > 1 && i > 0 {
 					strs = []string{"", " ", "\t// "} // an indent, a separator
 				} else {
@@ -470,16 +497,30 @@ func sortedDirKeys(e *yang.Entry, max int) []string {
 	return ks
 }
 
-// entry calls every accessor of e and of the values its fields hold, and queues the entries kept
-// beside its children.
+// writeHeight: the methods that write (Print, Write) print what is below the receiver, through one
+// indenting writer per level, so a call costs (lines below) x (levels below).  They are called on
+// every entry / statement with at most so many levels below it (on the way back up, when the height
+// is known) while the output budget lasts; the roots of deep trees are printed by the caller from
+// 400 levels above the deepest node.
+const writeHeight = 40
+
+// entryWriters calls the methods of e that write.
+func (rb *readback) entryWriters(e *yang.Entry) {
+	if rb.out.n > rb.outLimit {
+		return
+	}
+	rb.callAll(reflect.ValueOf(e), &callCtx{entry: e, onlyWrite: true})
+}
+
+// entry calls every accessor of e (those that write excepted: entryWriters) and of the values its
+// fields hold, and queues the entries kept beside its children.
 func (rb *readback) entry(e *yang.Entry, depth int, full bool) {
-	ctx := &callCtx{entry: e}
+	ctx := &callCtx{entry: e, noWrite: true}
 	if full && rb.findLeft > 0 {
 		ctx.find = rb.findPool(e, e.Path())
 		rb.findLeft -= len(ctx.find)
 	} else {
 		ctx.find = []string{".", "..", "x][", "x[k=1]", "]k["}
-		ctx.noWrite = !full
 	}
 	rb.callAll(reflect.ValueOf(e), ctx)
 	rb.fields(reflect.ValueOf(e).Elem(), e, 0)
@@ -659,19 +700,25 @@ func (rb *readback) node(n yang.Node, depth int) {
 
 // stmt calls the methods of a statement (Arg, Location, SubStatements, Write, the Node methods) and
 // of its substatements.
-func (rb *readback) stmt(s *yang.Statement, depth int) {
+func (rb *readback) stmt(s *yang.Statement, depth int) (height int) {
 	if s == nil {
-		return
+		return 0
 	}
 	p := reflect.ValueOf(s).Pointer()
 	if rb.seenPtr[p] {
-		return
+		return writeHeight + 1
 	}
 	rb.seenPtr[p] = true
-	rb.callAll(reflect.ValueOf(s), &callCtx{})
+	rb.callAll(reflect.ValueOf(s), &callCtx{noWrite: true})
 	for _, c := range s.SubStatements() {
-		rb.stmt(c, depth+1)
+		if h := rb.stmt(c, depth+1) + 1; h > height {
+			height = h
+		}
 	}
+	if height <= writeHeight && rb.out.n <= rb.outLimit {
+		rb.callAll(reflect.ValueOf(s), &callCtx{onlyWrite: true})
+	}
+	return height
 }
 
 // ---------------------------------------------------------------------------------------------
